@@ -1,9 +1,207 @@
-"""Type-level unit (C19): filled in below."""
+"""Type-level unit (C19): frame condition 'a &Regex cannot be written through' decided by rustc's trait solver
+(custom auto trait DeepFrozen with a negative impl for UnsafeCell, plus Send + Sync), completed by mechanical scans
+of the source for global mutable state, unsafe sites and the `&self` signatures of the search entry points."""
+import os
+import re
+import time
+
+from . import weave
+from .common import REPO, offline_env, run
+
+
+class TObligation:
+    backend = "rustc"
+    kind = "complete"
+    bound = ""
+    fs = 0
+    weight = 1
+    timeout = 900
+    min_checks = 1
+    contract_file = os.path.abspath(__file__)
+
+    def __init__(self, name, fn, desc, domain, tier="quick"):
+        self.name = name
+        self.fn = fn
+        self.desc = desc
+        self.domain = domain
+        self.props = {"C19": tier}
+        self.src_file = "api.rs"
+
+    def wanted(self, prop, tier):
+        t = self.props.get(prop)
+        return t is not None and (t == "quick" or tier == "thorough")
+
+    def feature_sets(self, tier):
+        return ["default"]
+
+
+PROBE = r'''#![feature(auto_traits, negative_impls)]
+use core::cell::UnsafeCell;
+pub auto trait DeepFrozen {}
+impl<T: ?Sized> !DeepFrozen for UnsafeCell<T> {}
+fn send_sync<T: Send + Sync>() {}
+fn deep<T: DeepFrozen>() {}
+fn main() {
+    send_sync::<regress::Regex>();
+    send_sync::<regress::Match>();
+    send_sync::<regress::Error>();
+    deep::<regress::Regex>();
+    deep::<regress::Match>();
+    deep::<regress::Error>();
+    // every search entry point takes the regex by shared reference (this is a type check, nothing is executed)
+    let _find: for<'r, 't> fn(&'r regress::Regex, &'t str) -> Option<regress::Match> = regress::Regex::find;
+    let _find_ascii: for<'r, 't> fn(&'r regress::Regex, &'t str) -> Option<regress::Match> = regress::Regex::find_ascii;
+    let _find_iter: for<'r, 't> fn(&'r regress::Regex, &'t str) -> regress::Matches<'r, 't> = regress::Regex::find_iter;
+    let _find_from: for<'r, 't> fn(&'r regress::Regex, &'t str, usize) -> regress::Matches<'r, 't> = regress::Regex::find_from;
+    let _replace: for<'r, 't, 'u> fn(&'r regress::Regex, &'t str, &'u str) -> String = regress::Regex::replace;
+    let _replace_all: for<'r, 't, 'u> fn(&'r regress::Regex, &'t str, &'u str) -> String = regress::Regex::replace_all;
+    #[cfg(canary1)]
+    deep::<Vec<std::sync::Mutex<u8>>>();
+    #[cfg(canary2)]
+    deep::<Box<std::sync::atomic::AtomicUsize>>();
+    #[cfg(canary3)]
+    deep::<(regress::Regex, core::cell::Cell<u8>)>();
+}
+'''
+
+OBS = [
+    TObligation("k_deepfrozen_send_sync", "api::Regex,api::Match,api::Error,insn::CompiledRegex",
+                "Regex, Match and Error are Send + Sync and DeepFrozen: no UnsafeCell (Cell, RefCell, Mutex, RwLock, Once*, "
+                "atomics) is reachable through any field, Vec, Box or dependency type, so no code holding a &Regex can "
+                "write to it; find/find_ascii/find_iter/find_from/replace/replace_all take &self (type-checked).",
+                "all field paths of the three types, dependencies included (rustc trait solver)"),
+    TObligation("k_deepfrozen_canaries", "checker crate",
+                "Vacuity guard: the same bound is rejected for Vec<Mutex<u8>>, Box<AtomicUsize> and (Regex, Cell<u8>) "
+                "(each must fail to compile with E0277 on DeepFrozen).", "3 canary types"),
+    TObligation("k_no_global_mutable_state", "src/*.rs",
+                "No `static mut`, thread_local!, lazy/once cells or atomics are declared anywhere in the crate: a search "
+                "cannot depend on earlier searches through global state.", "every line of src/*.rs"),
+    TObligation("k_unsafe_inventory", "src/*.rs",
+                "Every `unsafe` site is in the reviewed inventory (read-only accesses to the haystack / tables or to state "
+                "owned by the executor via &mut self); a new unsafe site makes this obligation undecided until reviewed.",
+                "every `unsafe` token of src/*.rs"),
+]
+
+# reviewed inventory: file -> number of `unsafe` tokens outside comments (pinned tree + fix commits)
+UNSAFE_INVENTORY = None  # filled lazily from /verif/contracts/unsafe_inventory.json
 
 
 def all_obligations():
-    return []
+    return list(OBS)
+
+
+def _strip_comments(text):
+    text = re.sub(r"//[^\n]*", "", text)
+    text = re.sub(r"/\*.*?\*/", "", text, flags=re.S)
+    return text
+
+
+def _count_unsafe(src_dir):
+    counts = {}
+    for fn in sorted(os.listdir(src_dir)):
+        if fn.endswith(".rs"):
+            with open(os.path.join(src_dir, fn)) as f:
+                t = _strip_comments(f.read())
+            n = len(re.findall(r"\bunsafe\b", t))
+            if n:
+                counts[fn] = n
+    return counts
 
 
 def run_group(pid, obs, args, records, log, mk_record):
-    pass
+    from .common import load_json, CONTRACTS
+    t0 = time.time()
+    scratch = weave.make_scratch("C19")
+    try:
+        crate = os.path.join(scratch, "zz_typelevel")
+        os.makedirs(os.path.join(crate, "src"))
+        with open(os.path.join(crate, "Cargo.toml"), "w") as f:
+            f.write('[package]\nname = "zz_typelevel"\nversion = "0.0.0"\nedition = "2021"\n\n[workspace]\n\n'
+                    '[dependencies]\nregress = { path = ".." }\n')
+        with open(os.path.join(crate, "src", "main.rs"), "w") as f:
+            f.write(PROBE)
+        os.makedirs(os.path.join(crate, ".cargo"), exist_ok=True)
+        with open(os.path.join(crate, ".cargo", "config.toml"), "w") as f:
+            f.write("[net]\noffline = true\n")
+        lock = os.path.join(scratch, "Cargo.lock")
+        if os.path.exists(lock):
+            import shutil
+            shutil.copy(lock, os.path.join(crate, "Cargo.lock"))
+        base = ["cargo", "+nightly", "check", "--offline"]
+        wanted = {o.name: o for o in obs}
+
+        def rec(o, status, reason, cmd, secs, checks=1):
+            r = {"status": status, "reason": reason, "n_checks": checks, "failed": [], "covers_total": 0,
+                 "covers_satisfied": 0, "solver_s": round(secs, 2), "wall_s": round(secs, 1), "cmd": cmd}
+            if status == "violated":
+                r["failed"] = [{"id": o.name, "description": reason, "location": o.fn}]
+            m = mk_record(o, "default", r)
+            if status == "violated":
+                m["_res"] = r
+                m["_out"] = reason
+            records.append(m)
+            log("  %-44s %-10s %5.0fs %s" % (o.name, status, secs, ("- " + reason[:200]) if reason else ""))
+
+        if "k_deepfrozen_send_sync" in wanted:
+            o = wanted["k_deepfrozen_send_sync"]
+            rc, out, secs, to = run(base, cwd=crate, env=offline_env(), timeout=900)
+            if rc == 0:
+                rec(o, "discharged", "", " ".join(base) + " (zz_typelevel probe crate)", secs, checks=12)
+            elif re.search(r"E0277|E0308|E0599|E0061|mismatched types", out) and "zz_typelevel" in out and \
+                    re.search(r"--> src/main\.rs", out):
+                first = [l for l in out.split("\n") if l.startswith("error")][:3]
+                rec(o, "violated", "trait solver rejects the frame condition: " + " | ".join(first), " ".join(base), secs)
+            else:
+                rec(o, "undecided", "probe crate does not build: " + " | ".join(
+                    [l for l in out.split("\n") if l.startswith("error")][:3]), " ".join(base), secs)
+        if "k_deepfrozen_canaries" in wanted:
+            o = wanted["k_deepfrozen_canaries"]
+            bad = []
+            tot = 0.0
+            for c in ("canary1", "canary2", "canary3"):
+                env = offline_env({"RUSTFLAGS": "--cfg %s" % c})
+                rc, out, secs, to = run(base, cwd=crate, env=env, timeout=900)
+                tot += secs
+                if not (rc != 0 and "E0277" in out and "DeepFrozen" in out):
+                    bad.append(c)
+            if bad:
+                rec(o, "undecided", "vacuity guard: canary accepted by the trait solver: %s" % ",".join(bad),
+                    "RUSTFLAGS=--cfg canaryN " + " ".join(base), tot)
+            else:
+                rec(o, "discharged", "", "RUSTFLAGS=--cfg canaryN " + " ".join(base), tot, checks=3)
+        src_dir = os.path.join(scratch, "src")
+        if "k_no_global_mutable_state" in wanted:
+            o = wanted["k_no_global_mutable_state"]
+            ts = time.time()
+            hits = []
+            n_lines = 0
+            for fn in sorted(os.listdir(src_dir)):
+                if not fn.endswith(".rs"):
+                    continue
+                with open(os.path.join(src_dir, fn)) as f:
+                    t = _strip_comments(f.read())
+                for i, line in enumerate(t.split("\n"), 1):
+                    n_lines += 1
+                    if re.search(r"\bstatic\s+mut\b|thread_local!|lazy_static!|\bOnceLock\b|\bOnceCell\b|\bLazyLock\b|"
+                                 r"\bLazyCell\b|\bAtomic(Usize|U8|U16|U32|U64|Bool|I32|I64|Isize|Ptr)\b|"
+                                 r"\b(RefCell|Mutex|RwLock|UnsafeCell)\b|\bCell<", line):
+                        hits.append("%s:%d: %s" % (fn, i, line.strip()[:80]))
+            if hits:
+                rec(o, "violated", "global or interior mutable state declared: " + "; ".join(hits[:4]),
+                    "scan of src/*.rs", time.time() - ts)
+            else:
+                rec(o, "discharged", "", "scan of src/*.rs (%d lines)" % n_lines, time.time() - ts, checks=n_lines)
+        if "k_unsafe_inventory" in wanted:
+            o = wanted["k_unsafe_inventory"]
+            ts = time.time()
+            inv = load_json(os.path.join(CONTRACTS, "unsafe_inventory.json"), {}) or {}
+            cur = _count_unsafe(src_dir)
+            diff = ["%s: %d (reviewed %d)" % (k, cur.get(k, 0), inv.get(k, 0)) for k in sorted(set(cur) | set(inv))
+                    if cur.get(k, 0) > inv.get(k, 0)]
+            if diff:
+                rec(o, "undecided", "unsafe sites not in the reviewed inventory: " + "; ".join(diff),
+                    "scan of src/*.rs", time.time() - ts)
+            else:
+                rec(o, "discharged", "", "scan of src/*.rs", time.time() - ts, checks=sum(cur.values()))
+    finally:
+        weave.drop_scratch(scratch)
